@@ -7,9 +7,14 @@ interpretation of the MIR with the two enum parameters fixed to one variant each
 pure and loop-free, so the value-set domain yields a single constant per partition); the four tables are compared
 pairwise and with the definition in the property (on iff 2^SF / BW >= 16.38 ms, nominal bandwidth; the one pair
 whose nominal and tabulated bandwidth straddle the threshold accepts either answer). Pairs a driver rejects are
-reported as such. That the flag then reaches the documented register bit is the field-placement rule of C13."""
+reported as such. Clause "the drivers program the chip accordingly": for each chip (SX126x, SX1276, SX1272, LR11xx)
+set_modulation_params is run through the SPI transaction extractor (lrs/spi.py) with the decision fixed to off and to
+on and everything else symbolic (other parameters, every byte read back from the chip); the write that carries the
+LDRO field (SetModulationParams byte 4 / RegModemConfig3 bit 3 / RegModemConfig1 bit 0 / LR11xx SetModulationParam
+byte 5) must exist and its LDRO bit(s) must be the constant decision — not a bit read back from the chip, not
+unknown."""
 from ..runner import Result, CheckError
-from .. import absint_interp
+from .. import absint_interp, spi
 from ..absint import Lin
 from .common import ctx
 
@@ -72,6 +77,52 @@ def table(c, an, name, field, psf, pbw):
     return tab
 
 
+# chip -> (set_modulation_params entry, symbol of the decision, selector of the write carrying LDRO, byte index, bits, data sheet name)
+CHIP_WRITES = {
+    'sx126x': ('<lora_phy::sx126x::Sx126x<SPI, IV, C> as lora_phy::mod_traits::RadioKind>::set_modulation_params', ['0x8B'], 4, range(8), 'SetModulationParams (0x8B) byte 4'),
+    'lr11xx': ('<lora_phy::lr1110::Lr1110<SPI, IV> as lora_phy::mod_traits::RadioKind>::set_modulation_params', ['0x02', '0x0F'], 5, range(8), 'SetModulationParam (0x020F) byte 5'),
+    'sx1276': ('<lora_phy::sx127x::sx1276::Sx1276 as lora_phy::sx127x::radio_kind_params::Sx127xVariant>::set_modulation_params', ['0xA6'], 1, [3], 'RegModemConfig3 (0x26) bit 3'),
+    'sx1272': ('<lora_phy::sx127x::sx1272::Sx1272 as lora_phy::sx127x::radio_kind_params::Sx127xVariant>::set_modulation_params', ['0x9D'], 1, [0], 'RegModemConfig1 (0x1D) bit 0'),
+}
+
+
+def chip_programming(c, res):
+    n = 0
+    for chip, (fn, head, bi, bit_idx, what) in sorted(CHIP_WRITES.items()):
+        bl = c.prog.by_short.get(fn) or []
+        if len(bl) != 1:
+            raise CheckError('missing anchor: %s' % fn)
+        body = bl[0]
+        pi = [i for i in range(1, body.argc + 1) if body.local_name(i) == 'mdltn_params']
+        if len(pi) != 1:
+            raise CheckError('anchor: parameter mdltn_params of %s' % fn)
+        sym = 'p%d_mdltn_params*.low_data_rate_optimize' % pi[0]
+        for v in (0, 1):
+            def setup(an_, fr, st, v=v):
+                st.lo[sym] = v
+                st.hi[sym] = v
+                st.sets[sym] = frozenset([v])
+            txs = spi.transactions(c.prog, body, setup=setup)
+            hits = [(k, hd) for k, (kind, hd, pl) in txs if kind == 'write' and len(hd) > bi and [spi.fmt_byte(b) for b in hd[:len(head)]] == head]
+            if not txs:
+                raise CheckError('floor: no SPI transaction extracted from %s' % fn)
+            okw = bool(hits)
+            bad = None
+            for k, hd in hits:
+                byte = hd[bi]
+                want = [(v >> b_) & 1 for b_ in range(8)] if len(list(bit_idx)) == 8 else None
+                for b_ in bit_idx:
+                    exp = want[b_] if want else v
+                    if byte is None or byte[b_] != exp:
+                        okw = False
+                        bad = k
+            n += 1
+            res.require(okw, 'C15:%s:chip-bit:%s' % (chip, 'on' if v else 'off'),
+                        '%s: with the decision %s the LDRO field written to the chip (%s) is not that decision: %s' % (chip, 'on' if v else 'off', what, bad or 'no such write among %s' % [k for k, _ in txs][:6]),
+                        fn, 'SPI-WRITE(LDRO field = decision)', instance='%s programs %s = %d when the decision is %s' % (chip, what, v, 'on' if v else 'off'))
+    return n
+
+
 def run(tier):
     res = Result(PID)
     c = ctx('ws')
@@ -103,7 +154,8 @@ def run(tier):
             vals = {nm: tabs[nm][(si, bi)] for nm in tabs if tabs[nm][(si, bi)] != 'rejected'}
             res.require(len(set(vals.values())) <= 1, 'C15:disagree:SF%d/%s' % (si + 5, BW[bi].strip('_')), 'LDRO decisions differ: %s' % vals, None, 'AGREE(all implementations)',
                         instance='all implementations agree on SF%d/%s' % (si + 5, BW[bi].strip('_')))
-    res.coverage.update({'exhaustive': True, 'cells_decided': n,
+    n_chip = chip_programming(c, res)
+    res.coverage.update({'exhaustive': True, 'cells_decided': n, 'chip_write_cases': n_chip,
                          'tables': {nm: {'SF%d/%s' % (si + 5, BW[bi].strip('_')): ('rejected' if v == 'rejected' else 'on' if v else 'off') for (si, bi), v in sorted(t.items())} for nm, t in tabs.items()},
                          'configs': [c.info]})
     res.explanation = __doc__
